@@ -2,7 +2,7 @@
 from common import *
 import schema
 
-THEOREMS = ['readIdent_identOctets', 'readLen_lenOctets', 'frame_definite', 'rt_prim_opt', 'rt_prim', 'rt_value_opt', 'rt_cons_opt', 'rt_cons', 'eoc_exhausted', 'rt_cons_cer_opt', 'rt_cons_cer', 'rt_seq', 'rt_mandatory', 'codec_roundtrip', 'top_roundtrip', 'write_der_eq_ber', 'der_decodes_in_ber', 'leaf_int', 'leaf_bool', 'leaf_null', 'leaf_oid', 'leaf_integer', 'leaf_bits', 'leaf_octets', 'sample_codec', 'sample_roundtrip', 'Bcder.Props.C04b.pnv_absent', 'Bcder.Props.C04b.rtf_optNone_prim', 'Bcder.Props.C04b.rtf_optNone_value', 'Bcder.Props.C04b.rtf_optNone_cons', 'Bcder.Props.C04b.rtf_seq', 'Bcder.Props.C04b.rtf_cons_opt', 'Bcder.Props.C04b.rtf_cons_cer_opt', 'Bcder.Props.C04b.primLike_prim', 'Bcder.Props.C04b.primLike_octetSlice', 'Bcder.Props.C04b.primLike_octetString_prim', 'Bcder.Props.C04b.primLike_octetString_der', 'Bcder.Props.C04b.primLike_bitSlice', 'Bcder.Props.C04b.leaf_restricted', 'Bcder.Props.C04b.codecF_roundtrip', 'Bcder.Props.C04b.topF_roundtrip', 'Bcder.Props.C04b.follow_needed', 'Bcder.Props.C04b.sampleF_codec', 'Bcder.Props.C04b.sampleF_roundtrip', 'Bcder.Props.C04b.sampleS_codec', 'Bcder.Props.C04b.sampleS_roundtrip', 'Bcder.Props.C04b.untagged_eq', 'Bcder.Props.C04b.rtf_untagged', 'Bcder.Props.C04b.choice_codec', 'Bcder.Props.C04b.choice_roundtrip', 'Bcder.Props.C04c.parse_append', 'Bcder.Props.C04c.rt_captureOne', 'Bcder.Props.C04c.codecF_captured', 'Bcder.Props.C04c.sampleC_roundtrip']
+THEOREMS = ['readIdent_identOctets', 'readLen_lenOctets', 'frame_definite', 'rt_prim_opt', 'rt_prim', 'rt_value_opt', 'rt_cons_opt', 'rt_cons', 'eoc_exhausted', 'rt_cons_cer_opt', 'rt_cons_cer', 'rt_seq', 'rt_mandatory', 'codec_roundtrip', 'top_roundtrip', 'write_der_eq_ber', 'der_decodes_in_ber', 'leaf_int', 'leaf_bool', 'leaf_null', 'leaf_oid', 'leaf_integer', 'leaf_bits', 'leaf_octets', 'sample_codec', 'sample_roundtrip', 'Bcder.Props.C04b.pnv_absent', 'Bcder.Props.C04b.rtf_optNone_prim', 'Bcder.Props.C04b.rtf_optNone_value', 'Bcder.Props.C04b.rtf_optNone_cons', 'Bcder.Props.C04b.rtf_seq', 'Bcder.Props.C04b.rtf_cons_opt', 'Bcder.Props.C04b.rtf_cons_cer_opt', 'Bcder.Props.C04b.primLike_prim', 'Bcder.Props.C04b.primLike_octetSlice', 'Bcder.Props.C04b.primLike_octetString_prim', 'Bcder.Props.C04b.primLike_octetString_der', 'Bcder.Props.C04b.primLike_bitSlice', 'Bcder.Props.C04b.leaf_restricted', 'Bcder.Props.C04b.codecF_roundtrip', 'Bcder.Props.C04b.topF_roundtrip', 'Bcder.Props.C04b.follow_needed', 'Bcder.Props.C04b.sampleF_codec', 'Bcder.Props.C04b.sampleF_roundtrip', 'Bcder.Props.C04b.sampleS_codec', 'Bcder.Props.C04b.sampleS_roundtrip', 'Bcder.Props.C04b.untagged_eq', 'Bcder.Props.C04b.rtf_untagged', 'Bcder.Props.C04b.choice_codec', 'Bcder.Props.C04b.choice_roundtrip', 'Bcder.Props.C04c.parse_append', 'Bcder.Props.C04c.rt_captureOne', 'Bcder.Props.C04c.codecF_captured', 'Bcder.Props.C04c.sampleC_roundtrip', 'Bcder.Props.C04c.primLike_wrapped', 'Bcder.Props.C04c.wrapped_roundtrip']
 EXTRA_MODULES = ['C04b', 'C04c']
 RULE = ("random schemas (depth <= 3: SEQUENCE / SET / SEQUENCE OF, explicit and implicit tags of 1-4 identifier octets, OPTIONAL fields present "
         "and absent, CHOICE) over leaves of every supported type (BOOLEAN, NULL, all ten fixed-width integer types over boundary and random "
@@ -104,5 +104,5 @@ def nontrivial(req, ans):
     return ans.startswith("ok len=") and "dec=[ok " in ans and "dec=[ok  |" not in ans
 
 LEVEL = "proof"
-LEVEL_TEXT = ("Lean 4 theorems. Framing, for EVERY tag (class <= 3, number <= 0x1FFFFF, not end-of-contents), every content below 2^32 octets, every context (top level, definite parent with any sufficient limit, indefinite parent), anything following, ANY closure: a value written as identifier ++ minimal definite length ++ content is read back by the tag-selective readers with the closure run on exactly the content window and the limit afterwards reduced by exactly the value's size (frame_definite; readIdent_identOctets, readLen_lenOctets); CER constructed values (80 ... 00 00) likewise (rt_cons_cer, eoc_exhausted). Composition: the inductive family Codec pairs every encoder composition built from primitive / implicitly or explicitly tagged constructed / sequence-set-tuple-vec / OPTIONAL-present / Choice / mapped values with the decoder built from take_primitive_if, take_value_if, take_constructed_if, their optional variants and sequencing; codec_roundtrip proves by induction over that family, at every nesting depth and in every mode, that decoding the written octets returns the value, consumes exactly them and leaves the Constructed as it was (top_roundtrip: Mode::decode returns the value with nothing left). OPTIONAL fields that are ABSENT and the string encoders (C04b): the family CodecF extends Codec by None / take_opt_*_if with any closure and by every encoder that writes a primitive value (OctetSliceEncoder, OctetStringEncoder - in DER any segmentation is written primitive -, BitSliceEncoder; leaves: OCTET STRING and the four restricted character strings, leaf_restricted), tracking the follow set T of tags that must not come next; codecF_roundtrip proves the round trip whenever what follows is empty or starts with a tag outside T (rtf_seq: the tag of an absent field must differ from the first tag of what is written next, exactly the ASN.1 unambiguity rule; rtf_cons_opt / rtf_cons_cer_opt: inside a constructed value the end of the content, or the end-of-contents marker, discharges it), topF_roundtrip: at top level unconditionally; follow_needed shows by kernel evaluation that the condition cannot be dropped; the untagged readers take_value / take_primitive / take_constructed and their optional forms are the tag-selective readers for the tag that was written, with the closure applied to it (untagged_eq, rtf_untagged; CodecF.untagged, mandatoryOf; choice_roundtrip: a Choice2 value read back with take_value); Captured values: octets that are one complete value of the mode, written by copying, are returned unchanged by capture_one in every context (C04c.rt_captureOne, codecF_captured); DER output decodes to the same value in BER mode (der_decodes_in_ber). Leaves: all ten fixed-width INTEGER types, BOOLEAN, NULL, OBJECT IDENTIFIER, arbitrary-size INTEGER, BIT STRING, primitive OCTET STRING (leaf_*), from C14/C15/C19/C20. Correspondence: random typed value trees (all leaf types, SEQUENCE/SET, explicit/implicit tags, OPTIONAL present/absent, segmented strings) encoded by the REAL combinators in each mode, decoded by the real readers, DER output also in BER.")
+LEVEL_TEXT = ("Lean 4 theorems. Framing, for EVERY tag (class <= 3, number <= 0x1FFFFF, not end-of-contents), every content below 2^32 octets, every context (top level, definite parent with any sufficient limit, indefinite parent), anything following, ANY closure: a value written as identifier ++ minimal definite length ++ content is read back by the tag-selective readers with the closure run on exactly the content window and the limit afterwards reduced by exactly the value's size (frame_definite; readIdent_identOctets, readLen_lenOctets); CER constructed values (80 ... 00 00) likewise (rt_cons_cer, eoc_exhausted). Composition: the inductive family Codec pairs every encoder composition built from primitive / implicitly or explicitly tagged constructed / sequence-set-tuple-vec / OPTIONAL-present / Choice / mapped values with the decoder built from take_primitive_if, take_value_if, take_constructed_if, their optional variants and sequencing; codec_roundtrip proves by induction over that family, at every nesting depth and in every mode, that decoding the written octets returns the value, consumes exactly them and leaves the Constructed as it was (top_roundtrip: Mode::decode returns the value with nothing left). OPTIONAL fields that are ABSENT and the string encoders (C04b): the family CodecF extends Codec by None / take_opt_*_if with any closure and by every encoder that writes a primitive value (OctetSliceEncoder, OctetStringEncoder - in DER any segmentation is written primitive -, BitSliceEncoder; leaves: OCTET STRING and the four restricted character strings, leaf_restricted), tracking the follow set T of tags that must not come next; codecF_roundtrip proves the round trip whenever what follows is empty or starts with a tag outside T (rtf_seq: the tag of an absent field must differ from the first tag of what is written next, exactly the ASN.1 unambiguity rule; rtf_cons_opt / rtf_cons_cer_opt: inside a constructed value the end of the content, or the end-of-contents marker, discharges it), topF_roundtrip: at top level unconditionally; follow_needed shows by kernel evaluation that the condition cannot be dropped; the untagged readers take_value / take_primitive / take_constructed and their optional forms are the tag-selective readers for the tag that was written, with the closure applied to it (untagged_eq, rtf_untagged; CodecF.untagged, mandatoryOf; choice_roundtrip: a Choice2 value read back with take_value); Values wrapped in an OCTET STRING (WrappingOctetStringEncoder): the outer read returns the octet string holding exactly the inner encoding, and decoding that content with the inner decoder returns the inner value (C04c.wrapped_roundtrip; that reading from the octet string as a source equals reading from its content is C07b). Captured values: octets that are one complete value of the mode, written by copying, are returned unchanged by capture_one in every context (C04c.rt_captureOne, codecF_captured); DER output decodes to the same value in BER mode (der_decodes_in_ber). Leaves: all ten fixed-width INTEGER types, BOOLEAN, NULL, OBJECT IDENTIFIER, arbitrary-size INTEGER, BIT STRING, primitive OCTET STRING (leaf_*), from C14/C15/C19/C20. Correspondence: random typed value trees (all leaf types, SEQUENCE/SET, explicit/implicit tags, OPTIONAL present/absent, segmented strings) encoded by the REAL combinators in each mode, decoded by the real readers, DER output also in BER.")
 LEVEL_NOTE = ("Trusted: Lean 4.33 kernel; axioms propext, Classical.choice, Quot.sound only; the hand-written model tied to /repo on every run by differential correspondence through the real encoders and decoders. Covered by the correspondence check and other properties rather than by codec_roundtrip / codecF_roundtrip: constructed (segmented) OCTET STRINGs written in BER as they are (content level: C16, C17; C16b.ber_accept_reencode), captured data other than one complete value read back by capture_one (that case is C04c: rt_captureOne, codecF_captured, with parse_append - the grammar does not depend on what follows a value) (C11; C16b.ber_accept_reencode: every accepted constructed OCTET STRING re-encodes in BER as a well-formed value of the same content), well-formedness of the produced octets as such (C06 write_ok_spec: the writer equals the reference encoder; C02: the reference grammar). Stated on runG0 (SliceSource semantics; C07 carries capture-free reads to every conforming source).")
